@@ -4607,7 +4607,16 @@ class ParameterizedMetaclass(type):
                 # the copy replaces the inherited Parameter in the cached
                 # params() of this class and of its subclasses
                 _clear_params_cache(mcs)
-            mcs.__dict__[attribute_name].__set__(None,value)
+                try:
+                    parameter.__set__(None,value)
+                except Exception:
+                    # a rejected value leaves no trace: the class goes on
+                    # inheriting the Parameter
+                    type.__delattr__(mcs,attribute_name)
+                    _clear_params_cache(mcs)
+                    raise
+            else:
+                mcs.__dict__[attribute_name].__set__(None,value)
 
         else:
             type.__setattr__(mcs,attribute_name,value)
